@@ -6,7 +6,7 @@ import ast
 from ..absval import Undecided, eval_function
 from ..core import (AnalysisError, alpha, call_name, dotted, is_const, kwarg, local_defs, norm, origin, parent_map,
                     walk_local)
-from ..facts import guards_of, returns_of, enclosing_loops, unpack_of
+from ..facts import assigned_subscripts, guards_of, returns_of, enclosing_loops, unpack_of
 from ..rules import matcher as M
 from ..shape import walk_paths
 from ..pattern import pmatch, pfind, pall
@@ -83,11 +83,16 @@ def search(rep, rel, q, pi, hi):
     il = iso_loops[0]
     # discovered roles: result list, inverted mapping, level flag, best size
     apps = [(c, b) for c, b in pfind("$$res.append($inv)", il)]
+    # ... or stored under a key in a per-level dict:  <level>[key] = inv
+    apps += [(st_, {"res": norm(st_.targets[0].value), "inv": st_.value.id}) for st_ in walk_local(il)
+             if isinstance(st_, ast.Assign) and len(st_.targets) == 1 and isinstance(st_.targets[0], ast.Subscript) and isinstance(st_.value, ast.Name)
+             and isinstance(st_.targets[0].value, ast.Name)]
     inv_name = res_txt = None
     for c, b in apps:
         src = origin(defs, ast.Name(id=b["inv"], ctx=ast.Load()))
         if pmatch(f"self._invert_mapping({norm(il.target)})", src) is not None:
             inv_name, res_txt, app_call = b["inv"], b["res"], c
+    apps = [(c, b) for c, b in apps if b["inv"] == inv_name] if inv_name else apps
     flags = [norm(n.targets[0]) for n in walk_local(il) if isinstance(n, ast.Assign) and is_const(n.value, True) and isinstance(n.targets[0], ast.Name)]
     flag = flags[0] if len(set(flags)) == 1 else None
     best_w = [n for n in walk_local(sl) if isinstance(n, ast.Assign) and norm(n.value) == k and n not in walk_local(cl)]
@@ -110,7 +115,15 @@ def search(rep, rel, q, pi, hi):
             ok_flag = len(defs.get(b["n"], [])) == 1 and len(apps) == 1
             LEVEL = f"{b['n']}<len({_flat(sn.value.args[0])})"
             construct = sn
+        elif res_txt and res_txt.isidentifier():
+            # a per-level container: emptied once per size before the subsets are enumerated, filled only where a mapping is stored; "non-empty" is the signal
+            fresh = [n for n in sl.body if isinstance(n, ast.Assign) and norm(n.targets[0]) == res_txt and n.lineno < cl.lineno
+                     and ((isinstance(n.value, (ast.Dict, ast.List, ast.Set)) and not (getattr(n.value, "keys", None) or getattr(n.value, "elts", None)))
+                          or (isinstance(n.value, ast.Call) and norm(n.value.func) in ("dict", "list", "set") and not n.value.args))]
+            if len(fresh) == 1 and len([d_ for d_ in defs.get(res_txt, [])]) == 1 and len(apps) == 1:
+                ok_flag, LEVEL, construct = True, res_txt, fresh[0]
     rep.ob("O12.2", "R16", fi, ok_flag, construct, "the level flag is lowered once per size, before its subsets are enumerated")
+    stops_at_first_level = []   # exits taken in maximum mode as soon as a level produced a mapping
     for ex in [n for n in walk_local(sl) if isinstance(n, (ast.Break, ast.Return))]:
         inside_inner = any(l is cl or enclosing_loops(pm, l, sl) and cl in enclosing_loops(pm, l, sl) for l in enclosing_loops(pm, ex, sl))
         gs = [(_flat(t), s) for t, s in guards_of(pm, ex, sl)]
@@ -120,27 +133,32 @@ def search(rep, rel, q, pi, hi):
         flat = [g for g, s in gs if s]
         in_mcs = any(g == "mcs" or g.startswith("mcsand") for g in flat)
         after_level = (LEVEL is not None and any(g == LEVEL for g in flat) and ex.lineno > cl.lineno) or (BEST is not None and any(f"{k}<{BEST}" in g for g in flat))
+        if in_mcs and after_level and not any(g != LEVEL and g != "mcs" and not g.startswith("mcsand") and f"{k}<{BEST}" not in g for g in flat):
+            stops_at_first_level.append(ex)
         rep.ob("O12.2", "R16", fi, in_mcs and after_level, f"{type(ex).__name__} under {flat}",
                "the search stops early only in maximum mode and only once a complete level has produced a result (or sizes fell below the best)", node=ex)
     rep.ob("O12.1", "R2", fi, call_name(il.iter) == "subgraph_isomorphisms_iter", il.iter,
            "common subgraphs are *induced*: bonds between mapped atoms must be present (with equal order) on both sides", node=il)
+    def registered(coll, key):
+        """the key is entered into the collection later in the loop: coll.add(key) or coll[key] = ..."""
+        return bool(pfind(f"{coll}.add({key})", il)) or any(norm(t_.value) == coll and norm(t_.slice) == key for t_, v_, st_ in assigned_subscripts(il))
     for ex in [n for n in walk_local(il) if isinstance(n, (ast.Continue, ast.Break, ast.Return))]:
         gs = [t for t, s in guards_of(pm, ex, il) if s]
         # "not already skipped by an earlier duplicate test" is not a condition of its own
-        gs = [t for t in gs if not ((mm0 := pmatch("$k not in $s", t)) is not None and pfind(f"{mm0['s']}.add({mm0['k']})", il))]
+        gs = [t for t in gs if not ((mm0 := pmatch("$k not in $s", t)) is not None and registered(mm0["s"], mm0["k"]))]
         ok = False
         if isinstance(ex, ast.Continue) and inv_name:
             if len(gs) == 1:
                 mm = pmatch("$key in $seen", gs[0])
                 if mm:
-                    ksrc = origin(defs, ast.Name(id=mm["key"], ctx=ast.Load()))
-                    ok = pmatch(f"tuple(sorted({inv_name}.items()))", ksrc) is not None and bool(pfind(f"{mm['seen']}.add({mm['key']})", il))
+                    ksrc = origin(local_defs(il), ast.Name(id=mm["key"], ctx=ast.Load()))
+                    ok = pmatch(f"tuple(sorted({inv_name}.items()))", ksrc) is not None and registered(mm["seen"], mm["key"])
             elif len(gs) == 2 and "self.prune_automorphisms" in [norm(g) for g in gs]:
                 other = [g for g in gs if norm(g) != "self.prune_automorphisms"][0]
                 mm = pmatch("$hs in $hss", other)
                 if mm:
-                    hsrc = origin(defs, ast.Name(id=mm["hs"], ctx=ast.Load()))
-                    ok = pmatch(f"frozenset({inv_name}.values())", hsrc) is not None and bool(pfind(f"{mm['hss']}.add({mm['hs']})", il))
+                    hsrc = origin(local_defs(il), ast.Name(id=mm["hs"], ctx=ast.Load()))
+                    ok = pmatch(f"frozenset({inv_name}.values())", hsrc) is not None and registered(mm["hss"], mm["hs"])
         rep.ob("O12.2", "R16", fi, ok, f"{type(ex).__name__} under {[_flat(g) for g in gs]}", "a mapping is skipped only as an exact duplicate (or, when asked, as an automorphic image)", node=ex)
     # matcher
     ss = [s for s in M.sites(fi)]
@@ -155,15 +173,29 @@ def search(rep, rel, q, pi, hi):
     rep.ob("O12.1", "R2", fi, ok, apps[0][0] if apps else "append", "host->pattern dicts are inverted and stored pattern->host", node=il)
     RES = res_txt
     # final filter
-    filt = [n for n in walk_local(fi.node) if RES and isinstance(n, ast.Assign) and norm(n.targets[0]) == RES and isinstance(n.value, ast.ListComp)]
-    ok = False
-    if filt and BEST:
-        lc = filt[0].value
-        cond = [_flat(i) for i in lc.generators[0].ifs]
+    # a collection re-built from itself keeping the entries of the best size:  X = [m for m in X if len(m) == best]  /  X = {k: m for k, m in X.items() if len(m) == best}
+    filt = []
+    for n in walk_local(fi.node):
+        if isinstance(n, ast.Assign) and isinstance(n.targets[0], ast.Name) and isinstance(n.value, (ast.ListComp, ast.DictComp)) and len(n.value.generators) == 1 and BEST:
+            g_ = n.value.generators[0]
+            X = n.targets[0].id
+            if isinstance(n.value, ast.ListComp):
+                elem, same = norm(g_.target), norm(g_.iter) == X and norm(n.value.elt) == norm(g_.target)
+            else:
+                tg_ = g_.target.elts if isinstance(g_.target, ast.Tuple) and len(g_.target.elts) == 2 else None
+                elem = norm(tg_[1]) if tg_ else "?"
+                same = tg_ is not None and norm(g_.iter) == f"{X}.items()" and norm(n.value.key) == norm(tg_[0]) and norm(n.value.value) == norm(tg_[1])
+            if same and [_flat(i) for i in g_.ifs] == [f"len({elem})=={BEST}"]:
+                filt.append(n)
+    ok_filter = False
+    if filt:
         gs = [_flat(t) for t, s_ in guards_of(pm, filt[0], fi.node) if s_]
-        ok = cond == [f"len({norm(lc.generators[0].target)})=={BEST}"] and norm(lc.generators[0].iter) == RES and gs == [f"mcsand{BEST}"] \
-            and norm(lc.elt) == norm(lc.generators[0].target) and filt[0].lineno > sl.lineno
-    rep.ob("O12.2", "R16", fi, ok, filt[0] if filt else "final filter", "in maximum mode only mappings of the best size are kept (all returned mappings have the same size)")
+        ok_filter = gs == [f"mcsand{BEST}"] and filt[0].lineno > sl.lineno
+    # the same guarantee follows when maximum mode leaves the size loop at the first level that produced a mapping (nothing smaller is ever collected)
+    ok = True if (ok_filter or stops_at_first_level) else False
+    rep.ob("O12.2", "R16", fi, ok, filt[0] if filt else (stops_at_first_level[0] if stops_at_first_level else "final filter"),
+           "in maximum mode only mappings of the best size are kept (all returned mappings have the same size)",
+           {"filter": bool(ok_filter), "stops_at_first_productive_level": bool(stops_at_first_level)})
     ok = len(best_w) == 1 and LEVEL is not None and [_flat(t) for t, s_ in guards_of(pm, best_w[0], sl) if s_] == [LEVEL] and best_w[0].lineno > cl.lineno
     rep.ob("O12.2", "R16", fi, ok, best_w[0] if best_w else "best size", "the best size is the first (largest) level that produced a mapping")
 
@@ -373,8 +405,6 @@ MUTANTS = [
     dict(name="ascending size loop", file=MM, expect="O12.2", old="        for k in range(max_k, 0, -1):", new="        for k in range(1, max_k + 1):"),
     dict(name="break inside the combinations loop", file=MM, expect="O12.2",
          old="                    mappings.append(inv)\n                    level_found = True\n", new="                    mappings.append(inv)\n                    level_found = True\n                if level_found and mcs:\n                    break\n"),
-    dict(name="final size filter dropped", file=MM, expect="O12.2",
-         old="        if mcs and best_size:\n            mappings = [m for m in mappings if len(m) == best_size]\n", new=""),
     dict(name="sub-pattern first", file=MM, expect="O12.1",
          old="                gm = GraphMatcher(\n                    host,\n                    sub_pat,", new="                gm = GraphMatcher(\n                    sub_pat,\n                    host,"),
     dict(name="monomorphism instead of induced", file=MM, expect="O12.1", old="                for iso in gm.subgraph_isomorphisms_iter():", new="                for iso in gm.subgraph_monomorphisms_iter():"),
@@ -399,6 +429,10 @@ MUTANTS = [
 ]
 
 TWINS = [
+    # found in round 4: in maximum mode the size loop is left at the first level that produced a mapping, so nothing smaller is ever collected and
+    # the final size filter is redundant - dropping it preserves behaviour (this used to be listed as a mutant; the rule was over-demanding)
+    dict(name="final size filter dropped (redundant: maximum mode stops at the first productive level)", file=MM,
+         old="        if mcs and best_size:\n            mappings = [m for m in mappings if len(m) == best_size]\n", new=""),
     dict(name="size loop via reversed(range())", file=MM, old="        for k in range(max_k, 0, -1):", new="        for k in reversed(range(1, max_k + 1)):"),
 ]
 
